@@ -508,6 +508,17 @@ def gen_big_grammar(rng, recursion=True):
         R(X, rng.choice(Ts), X, w=rng.choice([Fr(1, 4), Fr(1, 8)]))
     for _ in range(rng.randint(0, 2)):
         R(rng.choice(Ns[nN // 2:]), w=Fr(1, 2))  # empty rules low in the hierarchy
+    # per head, weights sum to at most 1 (halved until they do): totals stay O(1) - unscaled, a head with a dozen
+    # alternatives of weight ~1 on each of ten levels gives totals around 1e15, and everything normalised by such a
+    # total falls below the library's 1e-12 truncation
+    tot = {}
+    for w, h, b in rules:
+        tot[h] = tot.get(h, 0) + w
+    for r in rules:
+        k = 1
+        while k < tot[r[1]]:
+            k *= 2
+        r[0] = r[0] / k
     rng.shuffle(rules)
     return {"S": Ns[0], "V": Ts, "rules": rules, "template": "big"}
 
